@@ -97,11 +97,11 @@ theorem terminatedF_spec (x : FCfg) (h : ArmOk a0 x) (hac : afterClose a0 = fals
       ArmOk a0 (terminatedF x).1 ∧ (x.arm = none → (terminatedF x).1.arm = none)) ∨
     ((terminatedF x).2 = some faultExc ∧ ((terminatedF x).1.l = x.l ∨ (terminatedF x).1.l = x.l.upd releasePause) ∧
       (terminatedF x).1.fired = true ∧ (terminatedF x).1.arm = none ∧ x.fired = false ∧ x.arm ≠ none ∧
-      mainHK a0.hk = true) := by
+      (a0.hk = .onTerminated ∨ a0.hk = .onClose)) := by
   unfold terminatedF
   rcases hookF_cases .onTerminated termBaseF x h with
     ⟨hhk, _, hnf, hxa, y, hy, h1, h2, h3, _⟩ | ⟨x', hl, hf, hr, hao, han, hcase⟩
-  · right; rw [hy]; exact ⟨rfl, Or.inl h1, h2, h3, hnf, hxa, by rw [hhk]; rfl⟩
+  · right; rw [hy]; exact ⟨rfl, Or.inl h1, h2, h3, hnf, hxa, Or.inl hhk⟩
   · rcases hcase with ⟨hhk, haf, _⟩ | hcase
     · exact absurd haf (by rw [afterClose_false hac (Or.inl hhk)]; exact Bool.false_ne_true)
     · have hc'' : (x'.updC releasePause).l.c.closed = false := by
@@ -117,7 +117,7 @@ theorem terminatedF_spec (x : FCfg) (h : ArmOk a0 x) (hac : afterClose a0 = fals
           have h1 : (termBaseF x').1 = y := by rw [show termBaseF x' = (y, some e) from hb]
           rw [k1] at h2; cases h2
           rw [hy]
-          refine ⟨rfl, Or.inr ?_, ?_, ?_, ?_, fun hn => k6 (han hn), by rw [k7]; rfl⟩
+          refine ⟨rfl, Or.inr ?_, ?_, ?_, ?_, fun hn => k6 (han hn), Or.inr k7⟩
           · show y.l = _; rw [← h1, k2, updC_l, hl]
           · show y.fired = true; rw [← h1]; exact k3
           · show y.arm = none; rw [← h1]; exact k4
@@ -210,7 +210,8 @@ theorem forceExceptedF_spec (hN : NK a0 N) (x : FCfg) (e : Exc) (h : ArmOk a0 x)
     (forceExceptedF N x e).1.l.c.st = .excepted e ∧ ArmOk a0 (forceExceptedF N x e).1 ∧
     (((forceExceptedF N x e).2 = none ∧ Inv2w (forceExceptedF N x e).1.l.c ∧
         (mainHK a0.hk = true → (forceExceptedF N x e).1.fired = x.fired)) ∨
-     ((forceExceptedF N x e).2 = some faultExc ∧ (forceExceptedF N x e).1.fired = true ∧ mainHK a0.hk = true ∧ x.fired = false)) := by
+     ((forceExceptedF N x e).2 = some faultExc ∧ (forceExceptedF N x e).1.fired = true ∧
+        (a0.hk = .onTerminated ∨ a0.hk = .onClose) ∧ x.fired = false)) := by
   unfold forceExceptedF
   simp only [hc, Bool.false_eq_true, if_false]
   -- the configurations on the way
@@ -254,7 +255,8 @@ theorem forceExceptedF_spec (hN : NK a0 N) (x : FCfg) (e : Exc) (h : ArmOk a0 x)
         · rw [k2]; exact hyst
         · rw [k2, upd_c, (releasePause_fields y.l.c).1]; exact hyst
       refine ⟨hst, ⟨fun b hb => (by rw [k4] at hb; cases hb), fun _ => k4⟩, Or.inr ⟨k1, k3, k7, ?_⟩⟩
-      rw [← hyf k7]; exact k5
+      have hm7 : mainHK a0.hk = true := by rcases k7 with h | h <;> rw [h] <;> rfl
+      rw [← hyf hm7]; exact k5
   · exfalso
     have : enteredHK (.excepted e) = none := rfl
     unfold enteredHooksF hookOpt at e1
